@@ -8,9 +8,13 @@ import (
 	"fmt"
 	"math/rand"
 	"regexp"
+	"slices"
 	"sort"
 	"strings"
 	"testing"
+
+	openfgav1 "github.com/openfga/api/proto/openfga/v1"
+	"google.golang.org/protobuf/proto"
 
 	"gonum.org/v1/gonum/graph/multi"
 
@@ -117,6 +121,23 @@ func TestBoundedC17(t *testing.T) {
 			}
 			r.violation(cls, id, "plain graph differs from the rewrite:\n%s", firstDiff(exp, got))
 		}
+		// the same model with the operands of every root union/intersection in reverse order (only reachable through
+		// JSON/proto: the DSL always puts the direct assignment first): the edges a rewrite dictates do not depend on the
+		// operand order
+		if alt := reversedOperands(model); alt != nil {
+			if ag, err := NewAuthorizationModelGraph(alt); err != nil {
+				r.violation("build-error", id+" [operands reversed]", "%v", err)
+			} else {
+				want2, repeated2 := specDigest(alt)
+				if got, exp := plainDigest(ag), specPlainDigest(want2); got != exp {
+					cls := "structure-differs"
+					if repeated2 {
+						cls = "structure-differs/repeated-tuple-to-userset-operand"
+					}
+					r.violation(cls, id+" [operands reversed]", "plain graph differs from the rewrite:\n%s", firstDiff(exp, got))
+				}
+			}
+		}
 		// reversal
 		rev, err := first.Reversed()
 		if err != nil {
@@ -186,4 +207,29 @@ func TestBoundedC17(t *testing.T) {
 		}
 	}
 	r.emit()
+}
+
+// reversedOperands returns a copy of the model in which the children of every root union / intersection are reversed
+// (nil when no relation has such a root).
+func reversedOperands(m *openfgav1.AuthorizationModel) *openfgav1.AuthorizationModel {
+	c, _ := proto.Clone(m).(*openfgav1.AuthorizationModel)
+	changed := false
+	for _, td := range c.GetTypeDefinitions() {
+		for _, rw := range td.GetRelations() {
+			var kids []*openfgav1.Userset
+			if u := rw.GetUnion(); u != nil {
+				kids = u.GetChild()
+			} else if i := rw.GetIntersection(); i != nil {
+				kids = i.GetChild()
+			}
+			if len(kids) > 1 {
+				slices.Reverse(kids)
+				changed = true
+			}
+		}
+	}
+	if !changed {
+		return nil
+	}
+	return c
 }
